@@ -200,6 +200,7 @@ type Comp struct {
 	Name string `json:"name"`
 	AV   int    `json:"av,omitempty"`
 	Tree *Node  `json:"tree,omitempty"`
+	H    int    `json:"h,omitempty"`
 	// Unbuffered: a library component that writes straight to the caller's
 	// writer (no templ buffer, no context check of its own).
 	Unbuffered bool `json:"-"`
@@ -209,7 +210,7 @@ type Comp struct {
 var staticNames = []string{"Empty", "Text", "TextExpr", "MultiLineExpr", "EscText", "Attrs", "ClassAttr", "StyleAttr", "StyleForms", "Href",
 	"OnClick", "ScriptCall", "ScriptElem", "RawElems", "Nav", "Layout", "Page", "IfElse", "ForLoop", "Switch", "Wrap", "UseWrap",
 	"NestedFail", "ManyTiny", "Flushy", "Joiny", "Oncey", "Rawy", "Funcy", "GoHTML", "ToGoHTML", "JSONy", "SubBox", "UseMethod",
-	"Deep", "LegacyBody", "LegacyNested", "LegacyLast", "CancelMiddle", "ManualSeq", "BareManual", "SideSmall", "SideLarge", "SideTwice", "LongStatic", "LongMixed", "LongBoundary", "DevA", "DevB",
+	"Deep", "OnceZero", "LegacyBody", "LegacyNested", "LegacyLast", "CancelMiddle", "ManualSeq", "BareManual", "SideSmall", "SideLarge", "SideTwice", "LongStatic", "LongMixed", "LongBoundary", "DevA", "DevB",
 	"BareJoin", "BareOnce", "BareFlush", "SlotRoot", "NonceScripts", "NonceOnClick", "BareRaw", "BareScript"}
 
 var variedNames = []string{"LegacyNested", "EscText", "Attrs", "ClassAttr", "Href", "Nav", "Page", "IfElse", "ForLoop", "Switch", "OnClick", "BareJoin"}
@@ -346,6 +347,7 @@ type Event struct {
 	Ev    string     `json:"ev"`
 	Tag   string     `json:"tag,omitempty"`
 	Key   string     `json:"key,omitempty"`
+	Keys  []string   `json:"keys,omitempty"`
 	Ver   int        `json:"ver,omitempty"`
 	Kind  string     `json:"kind,omitempty"`
 	K     int        `json:"k,omitempty"`
@@ -372,27 +374,30 @@ type Event struct {
 
 // Job mirrors the driver's job line.
 type Job struct {
-	Op      string   `json:"op"`
-	BufSize int      `json:"bufsize,omitempty"`
-	Gid     bool     `json:"gid,omitempty"`
-	Hook    bool     `json:"hook,omitempty"`
-	Comp    *Comp    `json:"comp,omitempty"`
-	Other   *Comp    `json:"other,omitempty"`
-	Kinds   []string `json:"kinds,omitempty"`
-	Full    bool     `json:"full,omitempty"`
-	K       int      `json:"k,omitempty"`
-	Kind    string   `json:"kind,omitempty"`
-	Fail    string   `json:"fail,omitempty"`
-	G       int      `json:"g,omitempty"`
-	M       int      `json:"m,omitempty"`
-	Seed    int64    `json:"seed,omitempty"`
-	Comps   []Comp   `json:"comps,omitempty"`
-	Fault   bool     `json:"fault,omitempty"`
-	Gosched bool     `json:"gosched,omitempty"`
-	Rewrite *Rewrite `json:"rewrite,omitempty"`
-	Tag     string   `json:"tag,omitempty"`
-	Writers []string `json:"writers,omitempty"`
-	Steps   []Step   `json:"steps,omitempty"`
+	Op        string   `json:"op"`
+	BufSize   int      `json:"bufsize,omitempty"`
+	Gid       bool     `json:"gid,omitempty"`
+	Hook      bool     `json:"hook,omitempty"`
+	Comp      *Comp    `json:"comp,omitempty"`
+	Other     *Comp    `json:"other,omitempty"`
+	Kinds     []string `json:"kinds,omitempty"`
+	Full      bool     `json:"full,omitempty"`
+	K         int      `json:"k,omitempty"`
+	Kind      string   `json:"kind,omitempty"`
+	Fail      string   `json:"fail,omitempty"`
+	G         int      `json:"g,omitempty"`
+	M         int      `json:"m,omitempty"`
+	Seed      int64    `json:"seed,omitempty"`
+	Comps     []Comp   `json:"comps,omitempty"`
+	Fault     bool     `json:"fault,omitempty"`
+	Gosched   bool     `json:"gosched,omitempty"`
+	Rewrite   *Rewrite `json:"rewrite,omitempty"`
+	Tag       string   `json:"tag,omitempty"`
+	Writers   []string `json:"writers,omitempty"`
+	Steps     []Step   `json:"steps,omitempty"`
+	Bufio     bool     `json:"bufio,omitempty"`
+	OnceFresh int      `json:"oncefresh,omitempty"`
+	OnceComp  *Comp    `json:"oncecomp,omitempty"`
 }
 
 // Step of a writer-kind sequence (see the driver).
@@ -402,6 +407,7 @@ type Step struct {
 	Kind string `json:"kind,omitempty"`
 	K    int    `json:"k,omitempty"`
 	GC   bool   `json:"gc,omitempty"`
+	Hold bool   `json:"hold,omitempty"`
 }
 
 // WriterKinds are the writer objects the driver can build for sequences; the
